@@ -43,7 +43,7 @@ func (g *Gen) specLoad(env *Env, t types.Type, obj, off string) *Val {
 		cs := g.lay.Cells(t)
 		if len(cs) == len(terms) && env.nextobj != "" {
 			for i, c := range cs {
-				if c.Role == "obj" {
+				if c.Role == "obj" || c.Role == "ref" {
 					*env.side = append(*env.side, fmt.Sprintf("(< %s %s)", terms[i], env.nextobj))
 				}
 			}
@@ -578,6 +578,13 @@ func (g *Gen) specCall(env *Env, e *Expr) *Val {
 		}
 		off := map[string]string{"rpos": "(- 1)", "wcalls": "(- 2)", "wlen": "(- 3)"}[fn]
 		return scalar("Int", sel2(env.heap["Int"], a.S[0], off), nil)
+	case "hcontent":
+		// hcontent(h): bytes written to hash object h since its last Reset (ghost Bytes cell of the object)
+		a := g.specVal(env, args[0])
+		if a == nil {
+			return nil
+		}
+		return scalar("Bytes", sel2(env.heap["Bytes"], a.S[0], "0"), nil)
 	case "wout":
 		// wout(w, k): k-th byte written so far to writer w (ghost row of the writer, offsets >= 0)
 		a := g.specVal(env, args[0])
@@ -765,6 +772,12 @@ func (g *Gen) footprint(env *Env, e *Expr) []region {
 			}
 			off := map[string]string{"rpos": "(- 1)", "wcalls": "(- 2)", "wlen": "(- 3)"}[e.Args[0].Tok]
 			return []region{{"Int", a.S[0], off, fmt.Sprintf("(+ %s 1)", off), 1}}
+		case "hcontent":
+			a := g.specVal(env, e.Args[1])
+			if a == nil {
+				return nil
+			}
+			return []region{{"Bytes", a.S[0], "0", "1", 1}}
 		case "wout":
 			// wout(w, lo, hi): output bytes lo..hi-1 of writer w
 			a := g.specVal(env, e.Args[1])
